@@ -3,6 +3,21 @@ oslo_utils/imageutils/qemu.py (QemuImgInfo.SIZE_RE).  Fail-closed."""
 import re
 from common import *
 import regex_tr
+import failclosed
+
+# what the translator reads, and what must therefore be the single, unmodified, undecorated binding of its
+# name at run time (tools/gen/failclosed.py): the two tables and `re` of strutils, SIZE_RE and `re` of qemu;
+# string_to_bytes with `math` and `_` (its defaults are read and pinned by generate_code itself)
+_A = failclosed.ANY
+FAILCLOSED = {
+    'generate': [{'src': 'oslo_utils/strutils.py', 'mod': 'oslo_utils.strutils',
+                  'constants': ['UNIT_PREFIX_EXPONENT', 'UNIT_SYSTEM_INFO'], 'imports': {'re': 're'}},
+                 {'src': 'oslo_utils/imageutils/qemu.py', 'mod': 'oslo_utils.imageutils.qemu',
+                  'classes': {'QemuImgInfo': {}}, 'constants': ['QemuImgInfo.SIZE_RE'], 'imports': {'re': 're'}}],
+    'generate_code': [{'src': 'oslo_utils/strutils.py', 'mod': 'oslo_utils.strutils',
+                       'functions': {'string_to_bytes': {'defaults': {'unit_system': _A, 'return_int': _A}}},
+                       'constants': ['UNIT_PREFIX_EXPONENT', 'UNIT_SYSTEM_INFO'],
+                       'imports': {'math': 'math', 're': 're', '_': 'oslo_utils._i18n:_'}}]}
 
 _CS = re.compile(r'\[\(\d+,\d+\)(?:;\(\d+,\d+\))*\]')
 
@@ -21,7 +36,25 @@ def _share_csets(terms):
     defs = ['Definition %s : cset := %s.' % (n, t.replace(',', ', ')) for t, n in names.items()]
     return defs, out
 
+def split_eos(rx):
+    """Base/Regex.v has `$` (Eol) but no end-of-string anchor.  A pattern ending in \\Z is translated as
+    (body, true): the model runs the body with the continuation "the rest of the subject is empty"
+    (Model/C10_Regex.v, re_match_end), which is what body\\Z means under backtracking.  A \\Z anywhere else,
+    or any other unsupported construct, makes regex_tr refuse."""
+    import re._parser as P
+    from re._constants import AT, AT_END_STRING
+    flags = rx.flags & (re.I | re.S | re.M | re.A | re.X)
+    if flags & re.X: raise regex_tr.Unsupported('VERBOSE')
+    tree = P.parse(rx.pattern, flags)
+    eff = tree.state.flags
+    if eff & re.L: raise regex_tr.Unsupported('LOCALE')
+    items = list(tree)
+    eos = bool(items) and items[-1] == (AT, AT_END_STRING)
+    if eos: items = items[:-1]
+    return regex_tr.tr_seq(items, eff), eos
+
 def generate():
+    failclosed.check_all(FAILCLOSED['generate'])
     m = repo_import('oslo_utils.strutils')
     q = repo_import('oslo_utils.imageutils.qemu')
     table = getattr(m, 'UNIT_PREFIX_EXPONENT', None)
@@ -42,7 +75,8 @@ def generate():
     size_re = getattr(q.QemuImgInfo, 'SIZE_RE', None)
     if not hasattr(size_re, 'pattern'): raise GenError('QemuImgInfo.SIZE_RE is not a compiled regex')
     try:
-        terms = [regex_tr.regex_to_coq(rx)[0] for _, _, rx in systems] + [regex_tr.regex_to_coq(size_re)[0]]
+        split = [split_eos(rx) for _, _, rx in systems]
+        terms = [t for t, _ in split] + [regex_tr.regex_to_coq(size_re)[0]]
     except regex_tr.Unsupported as e:
         raise GenError('regex outside the supported fragment: %s' % e)
     defs, terms = _share_csets(terms)
@@ -55,8 +89,10 @@ def generate():
     for i, (k, base, rx) in enumerate(systems):
         out.append('(* UNIT_SYSTEM_INFO[%s]: %s *)' % (_cm(repr(k)), _cm(rx.pattern)))
         out.append('Definition unit_re_%d : re := %s.' % (i, terms[i]))
-    out.append('Definition unit_system_info : list (str * (option Z * re)) := [%s].' % '; '.join(
-        '(%s, (%s, unit_re_%d))' % (lit(k), 'None' if base is None else 'Some %d%%Z' % base, i) for i, (k, base, rx) in enumerate(systems)))
+    out.append('(* each regex with its end-of-string flag: true when the pattern ends in \\Z (split off by the translator) *)')
+    out.append('Definition unit_system_info : list (str * (option Z * (re * bool))) := [%s].' % '; '.join(
+        '(%s, (%s, (unit_re_%d, %s)))' % (lit(k), 'None' if base is None else 'Some %d%%Z' % base, i, 'true' if split[i][1] else 'false')
+        for i, (k, base, rx) in enumerate(systems)))
     out.append('(* QemuImgInfo.SIZE_RE (flags %d): %s *)' % (size_re.flags, _cm(size_re.pattern)))
     out.append('Definition size_re : re := %s.' % terms[-1])
     return '\n'.join(out) + '\n'
@@ -152,6 +188,19 @@ class _Tr:
         s, rest = stmts[0], stmts[1:]
         if isinstance(s, ast.Expr) and isinstance(s.value, ast.Constant) and isinstance(s.value.value, str):
             return self.block(rest)
+        # try: return int(math.ceil(x)) / except E: handler      (only E raised by the call is diverted)
+        if (isinstance(s, ast.Try) and not s.orelse and not s.finalbody and len(s.body) == 1 and len(s.handlers) == 1
+                and isinstance(s.body[0], ast.Return) and isinstance(s.handlers[0].type, ast.Name) and s.handlers[0].name is None
+                and s.handlers[0].type.id in ('OverflowError', 'ValueError', 'TypeError')):
+            ret = self.block([s.body[0]])
+            pre = 'match ceil_to_Z '
+            if not ret.startswith(pre): self.fail(s, 'try around a return that cannot raise')
+            x = ret[len(pre):].split(' ')[0]
+            saved = dict(self.types)
+            handler = self.block(s.handlers[0].body + rest)
+            self.types = dict(saved)
+            return ('match ceil_to_Z %s with\n| Ok z_ => Ok (NInt z_)\n| Exn e_ => match e_ with %s => (\n%s)\n| _ => Exn e_ end\nend'
+                    % (x, s.handlers[0].type.id, handler))
         # try: a, b = TABLE[key] / except KeyError: handler
         if isinstance(s, ast.Try):
             if s.orelse or s.finalbody or len(s.body) != 1 or len(s.handlers) != 1: self.fail(s, 'try shape')
@@ -215,7 +264,7 @@ class _Tr:
                 and self.types.get(v.func.value.id) == 'regex' and len(v.args) == 1 and not v.keywords
                 and isinstance(v.args[0], ast.Name) and self.types.get(v.args[0].id) == 'str'):
             self.types[name] = 'match'; self.subject[name] = v.args[0].id
-            return 'let %s := re_match %s %s in\n%s' % (self.var(name), self.var(v.func.value.id), self.var(v.args[0].id), self.block(rest))
+            return 'let %s := rz_match %s %s in\n%s' % (self.var(name), self.var(v.func.value.id), self.var(v.args[0].id), self.block(rest))
         # x = float(e)
         if isinstance(v, ast.Call) and isinstance(v.func, ast.Name) and v.func.id == 'float' and len(v.args) == 1 and not v.keywords:
             a, ta = self.expr(v.args[0])
@@ -280,6 +329,7 @@ class _Tr:
         return branches(self.truth(t))
 
 def generate_code():
+    failclosed.check_all(FAILCLOSED['generate_code'])
     tree = repo_ast('oslo_utils/strutils.py')
     f = find_def(tree, 'string_to_bytes')
     argn = [a.arg for a in f.args.args]
@@ -295,7 +345,7 @@ def generate_code():
     body = tr.block(f.body)
     out = [HEADER % ('oslo_utils/strutils.py', 'tools/gen/gen_C10.py (statement-level)')]
     out.append('Require Import OV.Base.Bytes OV.Base.Py OV.Base.PyInt OV.Base.Str OV.Base.Regex OV.Base.PyFloat.')
-    out.append('Require Import OV.Gen.C10_Units OV.Model.C10.')
+    out.append('Require Import OV.Model.C10_Regex OV.Gen.C10_Units OV.Model.C10.')
     out.append('Open Scope Z_scope.')
     out.append('Definition gen_default_unit_system : str := %s%%N.' % lit(dflt[0]))
     out.append('Definition gen_string_to_bytes (text unit_system : str) (return_int : bool) : res num :=\n%s.' % body)
